@@ -14,7 +14,7 @@ LEVEL = "model_checking"
 EXHAUSTIVE = True
 RULE = ("BFS from the initial state over events {send_command(cs) on master 5/6/broadcast for 11 command specifiers, state "
         "assignment by every table name + lower-case/empty/invalid names, slave-side state assignment, heartbeat bytes "
-        "{0,4,5,127,0x80,0x84,0xFF,75}, raw NMT frames addressed to 7/5/0}, de-duplicated on the five state views; after "
+        "{0,4,5,127,0x80,0x84,0xFF,75}, raw NMT frames addressed to 7/5/0, node guarding on/off}, de-duplicated on the five state views; after "
         "each step the bus frames and every compared view are checked against the CiA 301 table; all 256 heartbeat bytes are "
         "probed in every new state; waits: all schedules of waiter x receiver (0..2 heartbeats) with <= P preemptions. "
         "non-trivial = distinct states beyond the initial one plus schedules with >= 1 preemption")
@@ -31,7 +31,8 @@ EVENTS = [("cmd", who, cs) for who in ("m5", "m6", "mb") for cs in CS] + \
          [("name", who, n) for who in ("m5", "mb") for n in NAMES] + \
          [("slave_name", 5, n) for n in ("PRE-OPERATIONAL", "OPERATIONAL", "STOPPED", "RESET", "RESET COMMUNICATION")] + \
          [("hb", nid, b) for nid in (5, 6) for b in HB] + \
-         [("raw", tgt, cs) for tgt in (7, 5, 0) for cs in (1, 128)]
+         [("raw", tgt, cs) for tgt in (7, 5, 0) for cs in (1, 128)] + \
+         [("guard", "m5", "start"), ("guard", "m5", "stop")]
 OD = None
 
 
@@ -78,7 +79,7 @@ class World:
         hidden = tuple((k, tuple(sorted((a, v) for a, v in o.__dict__.items()
                                         if a not in ("timestamp", "id") and isinstance(v, (int, str, bool, type(None))))))
                        for k, o in sorted(self.objs().items()))
-        return hidden + (tuple(sorted(self.skip)),)
+        return hidden + (tuple(sorted(self.skip)), self.r5.nmt._node_guarding_producer is not None)
 
 
 def apply(w, ev):
@@ -162,6 +163,15 @@ def apply(w, ev):
         w.skip.discard("m%d" % nid)
         if objs["m%d" % nid].timestamp != ts:
             v.append(("C11:heartbeat-timestamp", ts, objs["m%d" % nid].timestamp))
+    elif kind == "guard":
+        # node guarding on / off: how heartbeats and commands are processed must not depend on it
+        try:
+            if ev[2] == "start":
+                objs[ev[1]].start_node_guarding(0.5)
+            else:
+                objs[ev[1]].stop_node_guarding()
+        except Exception as e:  # noqa: BLE001
+            v.append((f"C11:node-guarding-raises:{type(e).__name__}", "accepted", repr(e)[:120]))
     elif kind == "raw":
         _, tgt, cs = ev
         w.bus.inject(0, bytes([cs, tgt]))
